@@ -69,6 +69,7 @@ type harnessRun struct {
 	witness      Model
 	witnessChoices []int64
 	witnessObs   map[string]string
+	moreWitness  []witnessRec
 	reach        map[string]int
 	obs          map[string]Value // observations on the current path
 	obsOrder     []string
@@ -573,14 +574,34 @@ func (in *Interp) runPath(fn *ssa.Function, args []int64) {
 	in.endOfPath()
 }
 
+type witnessRec struct {
+	model   Model
+	choices []int64
+	obs     map[string]string
+}
+
 // endOfPath: the harness ran to completion on this path.
 func (in *Interp) endOfPath() {
 	run := in.run
 	run.completed++
 	// reachability witness: pc satisfiable (by invariant), fetch one model
-	if run.witness == nil || len(run.samples) < 4 {
+	// further witnesses on paths number 2, 3, 5, 9, 17, ... (translator validation
+	// on more than the first path)
+	extra := false
+	if n := run.completed; n >= 2 && len(run.moreWitness) < 8 && (n == 2 || (n-1)&(n-2) == 0) {
+		extra = true
+	}
+	if run.witness == nil || len(run.samples) < 4 || extra {
 		r, m := in.checkSat(nil, true)
 		if r == Sat {
+			if run.witness != nil && extra {
+				in.concretizeTextModel(m)
+				w := witnessRec{model: m, choices: in.currentChoices(), obs: map[string]string{}}
+				for _, k := range run.obsOrder {
+					w.obs[k] = in.evalObs(run.obs[k], m)
+				}
+				run.moreWitness = append(run.moreWitness, w)
+			}
 			if run.witness == nil {
 				in.concretizeTextModel(m)
 				run.witness = m
